@@ -1,7 +1,7 @@
 (** Prop_C07.v -- C07: a nameplate lives exactly as long as someone holds it.
     Statements quoted by type from NpFactsA.v / NpFactsB.v (printed by [Check]). *)
 From MW Require Import Base Store Monad Usage Server Websocket Service Findings Inv Obs
-     ProtoFacts StepFacts SweepFacts NpFactsA NpFactsB Inst_Params CrashLife RunLifts.
+     ProtoFacts StepFacts SweepFacts NpFactsA NpFactsB Inst_Params CrashLife RunLifts NameFacts.
 Local Open Scope list_scope.
 
 (** a side's claim on a nameplate is ended by NOTHING but its own release of that
@@ -88,3 +88,30 @@ Proof.
   split; [exists (mkNp 1 "a" "4" "mb"), (mkNps 1 true "s1" 5)|exists (mkNp 1 "a" "4" "mb"), (mkNps 1 true "s2" 6)];
     cbn; repeat split; auto.
 Qed.
+
+(** * listing as clients see it, and freeing (quoted by type from NameFacts.v) *)
+
+(** the `nameplates` frame lists exactly the live names of the caller's app when listing is allowed, nothing otherwise *)
+Theorem C07_listed_frame : ltac:(let t := type of listed_frame in exact t).
+Proof. exact listed_frame. Qed.
+Check C07_listed_frame.
+Print Assumptions C07_listed_frame.
+
+(** an allocate whose choice is free is answered `allocated` *)
+Theorem C07_allocate_answered : ltac:(let t := type of allocate_answered in exact t).
+Proof. exact allocate_answered. Qed.
+Check C07_allocate_answered.
+Print Assumptions C07_allocate_answered.
+
+(** after the last claimer's release: gone from the table, from every later `list` answer, and allocatable again *)
+Theorem C07_last_release_frees : ltac:(let t := type of last_release_frees in exact t).
+Proof. exact last_release_frees. Qed.
+Check C07_last_release_frees.
+Print Assumptions C07_last_release_frees.
+
+(** non-vacuity *)
+Theorem C07_last_release_applied : ltac:(let t := type of NameFactsExamples.last_release_applied in exact t).
+Proof. exact NameFactsExamples.last_release_applied. Qed.
+Check C07_last_release_applied.
+Print Assumptions C07_last_release_applied.
+
